@@ -174,6 +174,25 @@ def components(tier):
         return f
     for kind in ("total", "average", "papr", "per_antenna"):
         comps.append((f"constraint_{kind}", {"component": "constraint_" + kind}, con_factory(kind)))
+
+    # large batch members (2 x 16384 samples each): per-item work of very different duration (a peaky member needs many clipping rounds, a
+    # constant-modulus member none) must still come back at its own position
+    def con_large(kind):
+        def f():
+            con = {"papr": lambda: K.PAPRConstraint(max_papr=2.0), "total": lambda: K.TotalPowerConstraint(3.0)}[kind]()
+
+            def gen(rng, rows):
+                x = rng.randn(rows, 2, 16384).astype(np.float32)
+                x[0, :, ::97] *= 12.0  # peaky member first
+                if rows >= 2:
+                    x[1] = np.sign(x[1]) * 0.7  # constant modulus: nothing to clip
+                if rows >= 3:
+                    x[2] *= 3.0
+                return x
+            return dict(fn=lambda x: con(x), n_in=None, gen=gen, dtype="signal", constraint=True)
+        return f
+    for kind in ("papr", "total"):
+        comps.append((f"constraint_{kind}_large_items", {"component": "constraint_" + kind, "items": "large"}, con_large(kind)))
     return comps
 
 
@@ -384,6 +403,11 @@ def unit_stateful(ctx, names, examples):
                                                         suppress_health_check=list(HealthCheck), report_multiple_bugs=False, print_blob=False, phases=[Phase.generate, Phase.shrink]))
         except AssertionError as e:
             ctx.fail("C20.c_history_independent", cell, {"component": name, "history": _LAST.get("hist", [])}, str(e)[:160], "same answers as a fresh object", checker="c20:replay_history")
+        except hypothesis.errors.Flaky as e:
+            # the harness is deterministic (seeded inputs, no clock): a history that fails and then passes when Hypothesis replays it means the
+            # COMPONENT gives different answers for identical calls
+            ctx.fail("C20.c_repeatable", cell, {"component": name, "history": _LAST.get("hist", [])}, f"{type(e).__name__}: not reproducible", "identical histories give identical answers",
+                     "the component's answers differ between identical runs of the same call history", checker="c20:replay_history")
         ctx.ev(runs["n"] * 3)
         ctx.nontrivial("hist", name)
         ctx.cls("stateful_components")
